@@ -248,14 +248,14 @@ fn main() -> ! {
         for pair in pairs {
             match pair.as_rule() {
                 Rule::statement => {
-                    if let Some(inner_pair) = pair.into_inner().next() {
+                    let mut inner_pairs = pair.into_inner();
+                    if let Some(inner_pair) = inner_pairs.next() {
                         match inner_pair.as_rule() {
                             Rule::expression => {
                                 match pairs_to_expr_with_comments(inner_pair.into_inner()) {
                                     Ok(expr) => {
                                         let formatted = format_expr(&expr, None);
                                         formatted_output.push_str(&formatted);
-                                        formatted_output.push('\n');
                                     }
                                     Err(e) => {
                                         eprintln!("Error converting to AST: {}", e);
@@ -272,7 +272,6 @@ fn main() -> ! {
                                         });
                                         let formatted = format_expr(&output_expr, None);
                                         formatted_output.push_str(&formatted);
-                                        formatted_output.push('\n');
                                     }
                                     Err(e) => {
                                         eprintln!("Error converting to AST: {}", e);
@@ -283,10 +282,17 @@ fn main() -> ! {
                             Rule::comment => {
                                 // Preserve comments as-is
                                 formatted_output.push_str(inner_pair.as_str());
-                                formatted_output.push('\n');
                             }
                             _ => {}
                         }
+                        // End-of-line comment (second element in statement)
+                        if let Some(eol_comment) = inner_pairs.next()
+                            && eol_comment.as_rule() == Rule::comment
+                        {
+                            formatted_output.push_str("  ");
+                            formatted_output.push_str(eol_comment.as_str());
+                        }
+                        formatted_output.push('\n');
                     }
                 }
                 Rule::EOI => {}
